@@ -66,7 +66,7 @@ Definition hoist_setup (d : decl) : list ev :=
   | KLed | KRGB | KUltra | KSerial => []
   end.
 
-(* emit() pass 1 over the top-level nodes of loop_body (lines 2814-2948) *)
+(* emit() pass 1 over the top-level nodes of loop_body (lines 2826-2960) *)
 Definition hoist_loop (d : decl) : list ev :=
   match d_kind d with
   | KButton => match d_pins d with
@@ -488,6 +488,9 @@ Definition stS (p : program) : tstate := adv_all (p_G p) true (st0 p) (p_setup p
 (* functions are emitted after pass 2, from copies of the dicts *)
 Definition p_tabF (p : program) : list decl := ts_tab (adv_all (p_G p) false (stS p) (p_loop p)).
 
+(* ButtonPoll (emitter.py 1110-1128): next = digitalRead(pin); value = next; if (next && !prev) handler(); prev = next.
+   Since 97f26e6 the cached value is stored before the handler is called; is_pressed() reads that cache and touches no
+   pin, so the order is not visible in this event vocabulary (it is C15's clause). *)
 Definition poll_one (inp : Z -> nat -> bool) (p : program) (b : name) (h : hstate) : hstate * list ev :=
   match button_decl p b with
   | Some d =>
